@@ -86,7 +86,8 @@ def gen_tables(rng, pf=None):
 
 def build_frames(tb):
     dates = [pd.Timestamp(d) for d in tb["dates"]]
-    X = pd.DataFrame(tb["X"], index=[dates[j] for j in tb["x_rows"]], columns=tb["xcols"], dtype=float)
+    off = pd.Timedelta(seconds=tb.get("x_offset_s") or 0)      # feature rows published a little after the price rows
+    X = pd.DataFrame(tb["X"], index=[dates[j] + off for j in tb["x_rows"]], columns=tb["xcols"], dtype=float)
     Y = pd.DataFrame(tb["Y"], index=dates, columns=tb["ycols"], dtype=float)
     rate = pd.Series(tb["rate"], index=dates, name="r", dtype=float) if tb.get("rate") is not None else None
     return X, Y, rate
@@ -102,7 +103,15 @@ def make_env(scenario):
             kw[key] = pd.Timestamp(kw[key])
     with warnings.catch_warnings():
         warnings.simplefilter("ignore")
-        env = TradingEnvXY(X.copy(), Y.copy(), rate=rate.copy() if rate is not None else None, **kw)
+        if scenario.get("shared_first"):
+            # the caller builds two environments from the very same table objects: first a full-sample one
+            # (no transformer_end), then the one that is used; the second must not see what the first did
+            kw0 = {k: v for k, v in kw.items() if k != "transformer_end"}
+            Xs, Ys, rs = X.copy(), Y.copy(), (rate.copy() if rate is not None else None)
+            TradingEnvXY(Xs, Ys, rate=rs, **kw0)
+            env = TradingEnvXY(Xs, Ys, rate=rs, **kw)
+        else:
+            env = TradingEnvXY(X.copy(), Y.copy(), rate=rate.copy() if rate is not None else None, **kw)
     return env, X, Y, rate
 
 
